@@ -133,7 +133,14 @@ func zzxAcceptStep(t *zzT) {
 		t.Assume(slotU == 1 || slotU == 2)
 	}
 	slot := int(slotU)
-	ts := tip.Timestamp + uint32(slotU)*zzxBlockTime
+	// within the slot the timestamp is free as well (the rules compare SLOTS, not timestamps: a later
+	// timestamp inside the tip's own slot is still the same slot)
+	off := t.U8("slot.offset")
+	t.Assume(off < zzxBlockTime)
+	if !zzxDev(t, "dev.slot") {
+		t.Assume(off == 0)
+	}
+	ts := tip.Timestamp + uint32(slotU)*zzxBlockTime + uint32(off)
 	b := n.nextValid(1, txs)
 	h := b.Header
 	mhp, _, cert := n.heights()
@@ -159,6 +166,21 @@ func zzxAcceptStep(t *zzT) {
 	h.GeneratorAddress = zzxSel(t, headerGenIs0, zzxAddr[0], zzxAddr[1])
 	devMhp := zzxDev(t, "dev.maxHeightPrevoted")
 	h.MaxHeightPrevoted = mhp + t.IteU32(devMhp, 1, 0)
+	// honest maxHeightGenerated of whoever the header names as generator: the height of its latest block
+	// on this chain (nextValid filled in the value of the generator of slot +1)
+	var lastBy [2]uint32
+	for hh := tip.Height; hh > zzxGenesisH; hh-- {
+		bh, err := n.chain.DataAccess().GetBlockHeaderByHeight(hh)
+		if err != nil {
+			break
+		}
+		for g := 0; g < 2; g++ {
+			if lastBy[g] == 0 && bytes.Equal(bh.GeneratorAddress, zzxAddr[g]) {
+				lastBy[g] = hh
+			}
+		}
+	}
+	h.MaxHeightGenerated = t.IteU32(headerGenIs0, lastBy[0], lastBy[1])
 	if zzxDev(t, "dev.maxHeightGenerated") {
 		h.MaxHeightGenerated = uint32(t.U8("maxHeightGenerated"))
 		t.Assume(h.MaxHeightGenerated < 8)
